@@ -184,6 +184,11 @@ def run(ctx, chk):
     sub17 = Sub(chk, "C12-f", lambda r: r == "C17-b/byte-order" or r.startswith("C17-c/"))
     rules_c17.run(ctx, sub17)
     chk.floor("integral codec byte-order obligations (shared with C17-b)", sub17.count, 10)
+    # ... and the declared length prefix style is only as good as that style: the C16 clauses
+    import rules_c16
+    sub16 = Sub(chk, "C12-f", lambda r: r.startswith("C16-"))
+    rules_c16.run(ctx, sub16)
+    chk.floor("length-style obligations (shared with C16)", sub16.count, 30)
     mode = "thorough" if ctx.tier == "thorough" else "quick"
     fx = build_fixture(mode, ctx.seed)
     with open(os.path.join(fx, "expected.json")) as fh:
